@@ -594,7 +594,14 @@ def judge (_id : String) (lines : Array String) : Verdict := Id.run do
     -- (2) the tie: model = implementation
     let m := Node.run node inp
     let same := match node, m, obs with
-      | .groupBy _, .batch a, .batch b => sortStrings (a.map renderBatch) == sortStrings (b.map renderBatch)
+      -- groupBy re-sorts each regrouped batch with sort.Sort, which is NOT stable (pdqsort beyond 12 elements): the order
+      -- of points with EQUAL time stamps inside a batch is unspecified (the model's sort is stable). Both sides are
+      -- brought into one canonical order inside every run of equal times before they are compared; the spec clause
+      -- (sorted by time, same points with multiplicity) was evaluated above.
+      | .groupBy _, .batch a, .batch b =>
+        let canon (x : Batch) : Batch :=
+          { x with points := x.points.mergeSort (fun p q => p.time < q.time || (p.time == q.time && decide (renderBPoint p ≤ renderBPoint q))) }
+        sortStrings (a.map (fun x => renderBatch (canon x))) == sortStrings (b.map (fun x => renderBatch (canon x)))
       | _, _, _ => edgeEquivB m obs
     if !same then return .mismatch s!"node {n.id} ({n.kind}): model {short (renderEdge m)} observed {short outToks}"
     br := br ++ (nodeBranches node inp obs).filter (fun b => !br.contains b)
